@@ -11,6 +11,10 @@ Inductive case :=
 | PCase (mode : Z) (p : prog) (j : Z) (obs_log : list val) (obs_outcome : outcome)
         (as_panic : bool) (depth labels : Z) (followup : bool)
 | StackCase (limit d cls reached depth : Z) (repeat_same : bool)
+(* nested calls some of which are built-in (native) frames: every frame, script or native, counts against the limit.
+   shape 1: d-1 script frames and a native call innermost; shape 2: f, then d times (Array.prototype.map, callback g, f).
+   reached = script frames entered *)
+| StackCase2 (shape limit d cls reached depth : Z) (repeat_same : bool)
 (* a non-terminating program interrupted once from another goroutine: Run must unwind with
    the host's panic promptly and leave the runtime at rest and usable *)
 | LCase (id : Z) (stopped as_panic rest_ok : bool)
@@ -42,6 +46,11 @@ Definition globals_of (mode : Z) (s : state) : list val :=
 
 Definition halt_out (o : outcome) : bool := match o with OThrew VHalt => true | _ => false end.
 
+Definition frames (shape : Z) (d : nat) : list bool :=    (* true = script frame *)
+  if shape =? 1 then repeat true (pred d) ++ [false]
+  else true :: concat (repeat [false; true; true] d).
+Definition count_true (l : list bool) : Z := Z.of_nat (length (filter (fun b => b) l)).
+
 Definition verdict (c : case) : Z * Z :=
   match c with
   | LCase _ stopped aspanic rest => if stopped && aspanic && rest then (0, 0) else (3, 6)
@@ -55,6 +64,14 @@ Definition verdict (c : case) : Z * Z :=
       (* d nested calls from the global scope *)
       let expect := match chain limit 0 (Z.to_nat d) with None => 3 | Some _ => 0 end in
       let exp_reached := if expect =? 0 then d else limit - 1 in
+      if (cls =? expect) && (reached =? exp_reached) && (depth =? -1) && same then (0, 0) else (3, 0)
+  | StackCase2 shape limit d cls reached depth same =>
+      let fr := frames shape (Z.to_nat d) in
+      let n := Z.of_nat (length fr) in
+      (* the enterScope rule (C18_stack_limit_exact): exactly limit-1 nested frames are admitted *)
+      let ok := match chain limit 0 (length fr) with None => false | Some _ => true end in
+      let expect := if ok then 0 else 3 in
+      let exp_reached := count_true (if ok then fr else firstn (Z.to_nat (limit - 1)) fr) in
       if (cls =? expect) && (reached =? exp_reached) && (depth =? -1) && same then (0, 0) else (3, 0)
   | HCase mode p k total lg oc aspanic depth labels globals followup =>
       let '(sb, _, ob) := run_o fuel declared 0 p in
